@@ -18,7 +18,7 @@ import traceback
 import numpy as np
 
 PROP = 'C07'
-TARGETS = ['T12', 'T13a', 'T13c']
+TARGETS = ['T12', 'T13a', 'T13c', 'T13n']
 LEAN_MODULES = ['HdVerif.Props.C07']
 MODEL_MODULES = ['HdVerif.Model.Codec']
 NAMESPACE = 'HdVerif.C07'
